@@ -174,7 +174,7 @@ def run_name_case(params, st, keep_log=False):
         if calls != 1:
             run.fail("not-exactly-one-download", key, f"{what} on a cold cache made {calls} downloads, expected 1")
         urls = [k for k in a.attrs.get("urls", [])]
-        if urls and urls[0] != ds.url:
+        if urls and C.canonical_remote(urls[0]) != C.canonical_remote(ds.url):
             run.fail("wrong-remote-file", key, f"{what} downloaded {urls[0]}, its own file is {ds.url}")
         outside = [f for f in files if not f.startswith(inside)]
         if outside:
@@ -315,7 +315,7 @@ def run_static(params, st, keep_log=False):
         ds = ds_for(n)
         if ds is None:
             continue
-        for field, val in (("url", ds.url), ("checksum", ds.pinned), ("slot", (ds.folder, ds.slot)),
+        for field, val in (("url", C.canonical_remote(ds.url)), ("checksum", ds.pinned), ("slot", (ds.folder, ds.slot)),
                            ("remote_filename", ds.remote_filename)):
             if val in seen[field] and res.violation is None:
                 other = seen[field][val]
